@@ -27,12 +27,16 @@ func pathEstablishes(p core.Path, fact core.CondFact) bool {
 // errIsNilFact: the fact "v == nil" where v is the error result idx of a call satisfying pred.
 func errNilFact(idx int, pred func(ssa.Instruction) bool) core.CondFact {
 	return core.IsNilFact(func(v ssa.Value) bool {
+		found := false
 		for _, s := range core.Sources(v) {
+			if core.IsNilConst(s) {
+				return false // the variable may have been reset to nil: testing it says nothing about the call
+			}
 			if core.CallResult(s, idx, pred) != nil {
-				return true
+				found = true
 			}
 		}
-		return false
+		return found
 	})
 }
 
